@@ -1174,3 +1174,46 @@ package tally
 //@   ensures @all_recorded_values_in_order forall i int :: 0 <= i && i < len(result) ==> result[i] == t.unreported.values[i]
 //@   ensures @timer_untouched len(t.unreported.values) == old(len(t.unreported.values)) && (forall i int :: 0 <= i && i < len(t.unreported.values) ==> t.unreported.values[i] == old(t.unreported.values[i]))
 //@   ensures @quiet quiet()
+
+// The per-scope body of Snapshot (the closure handed to ForEachScope).
+// kspec1 is the abstract key of (name, tag map); for one fixed tag map it is
+// injective in the name because the name is a prefix of the key (C05).
+
+//@ axiom key_injective_in_prefix [C11]: forall a string, b string, m map[string]string :: kspec1(a, m) == kspec1(b, m) ==> a == b
+
+//@ pred cEnt(x CounterSnapshot, ss *scope, key string, tc map[string]string) { is(x, *counterSnapshot) && fresh(dyn(x, *counterSnapshot)) && dyn(x, *counterSnapshot).name == fqn(ss, key) && dyn(x, *counterSnapshot).tags == tc && dyn(x, *counterSnapshot).value == wrap64(ss.counters[key].curr - ss.counters[key].prev) }
+//@ pred gEnt(x GaugeSnapshot, ss *scope, key string, tc map[string]string) { is(x, *gaugeSnapshot) && fresh(dyn(x, *gaugeSnapshot)) && dyn(x, *gaugeSnapshot).name == fqn(ss, key) && dyn(x, *gaugeSnapshot).tags == tc && same(dyn(x, *gaugeSnapshot).value, frombits(ss.gauges[key].curr)) }
+//@ pred tEnt(x TimerSnapshot, ss *scope, key string, tc map[string]string) { is(x, *timerSnapshot) && fresh(dyn(x, *timerSnapshot)) && dyn(x, *timerSnapshot).name == fqn(ss, key) && dyn(x, *timerSnapshot).tags == tc && fresh(dyn(x, *timerSnapshot).values) && len(dyn(x, *timerSnapshot).values) == len(ss.timers[key].unreported.values) && (forall i int :: 0 <= i && i < len(dyn(x, *timerSnapshot).values) ==> dyn(x, *timerSnapshot).values[i] == ss.timers[key].unreported.values[i]) }
+//@ pred hvals(m map[float64]int64, h *histogram) { m != nil && fresh(m) && (forall i int :: 0 <= i && i < len(h.buckets) && (i == 0 || h.buckets[i-1].valueUpperBound < h.buckets[i].valueUpperBound) ==> (h.buckets[i].valueUpperBound in m) && m[h.buckets[i].valueUpperBound] == wrap64(h.samples[i].counter.curr - h.samples[i].counter.prev)) }
+//@ pred hdurs(m map[time.Duration]int64, h *histogram) { m != nil && fresh(m) && (forall i int :: 0 <= i && i < len(h.buckets) && (i == 0 || h.buckets[i-1].durationUpperBound < h.buckets[i].durationUpperBound) ==> (h.buckets[i].durationUpperBound in m) && m[h.buckets[i].durationUpperBound] == wrap64(h.samples[i].counter.curr - h.samples[i].counter.prev)) }
+//@ pred hEnt(x HistogramSnapshot, ss *scope, key string, tc map[string]string) { is(x, *histogramSnapshot) && fresh(dyn(x, *histogramSnapshot)) && dyn(x, *histogramSnapshot).name == fqn(ss, key) && dyn(x, *histogramSnapshot).tags == tc && (ss.histograms[key].htype == valueHistogramType && dupEmptyV(ss.histograms[key]) ==> hvals(dyn(x, *histogramSnapshot).values, ss.histograms[key])) && (ss.histograms[key].htype == durationHistogramType && dupEmptyD(ss.histograms[key]) ==> hdurs(dyn(x, *histogramSnapshot).durations, ss.histograms[key])) }
+//@ pred tagsCopied(tags map[string]string, ss *scope) { tags != nil && fresh(tags) && (forall k string :: (k in tags) == (k in ss.tags) && (k in tags ==> tags[k] == ss.tags[k])) }
+
+//@ func (*scope).Snapshot$1
+//@   property C11
+//@   allocs
+//@   requires scopeWF(ss) && s != nil && snap != nil && snap.counters != nil && snap.gauges != nil && snap.timers != nil && snap.histograms != nil
+//@   acquires ss.cm, ss.gm, ss.tm, ss.hm
+//@   modifies snap.counters, snap.gauges, snap.timers, snap.histograms
+//@   witness tc map[string]string = tags
+//@   ensures @quiet quiet()
+//@   ensures @tags_are_an_independent_copy_of_this_scopes_tags tagsCopied(tc, ss)
+//@   ensures @every_counter_has_its_entry forall key string :: key in ss.counters ==> (kspec1(fqn(ss, key), tc) in snap.counters) && cEnt(snap.counters[kspec1(fqn(ss, key), tc)], ss, key, tc)
+//@   ensures @every_gauge_has_its_entry forall key string :: key in ss.gauges ==> (kspec1(fqn(ss, key), tc) in snap.gauges) && gEnt(snap.gauges[kspec1(fqn(ss, key), tc)], ss, key, tc)
+//@   ensures @every_timer_has_its_entry forall key string :: key in ss.timers ==> (kspec1(fqn(ss, key), tc) in snap.timers) && tEnt(snap.timers[kspec1(fqn(ss, key), tc)], ss, key, tc)
+//@   ensures @every_histogram_has_its_entry forall key string :: key in ss.histograms ==> (kspec1(fqn(ss, key), tc) in snap.histograms) && hEnt(snap.histograms[kspec1(fqn(ss, key), tc)], ss, key, tc)
+//@   loop 1 invariant @copying tags != nil && fresh(tags) && quiet() && (forall k string :: k in tags ==> k in ss.tags && tags[k] == ss.tags[k]) && (forall k string :: seen(k) ==> k in tags)
+//@   loop 2 invariant @tags_done tagsCopied(tags, ss) && quiet()
+//@   loop 2 invariant @counters_so_far forall key string :: seen(key) ==> (kspec1(fqn(ss, key), tags) in snap.counters) && cEnt(snap.counters[kspec1(fqn(ss, key), tags)], ss, key, tags)
+//@   loop 3 invariant @tags_done tagsCopied(tags, ss) && quiet()
+//@   loop 3 invariant @counters_done forall key string :: key in ss.counters ==> (kspec1(fqn(ss, key), tags) in snap.counters) && cEnt(snap.counters[kspec1(fqn(ss, key), tags)], ss, key, tags)
+//@   loop 3 invariant @gauges_so_far forall key string :: seen(key) ==> (kspec1(fqn(ss, key), tags) in snap.gauges) && gEnt(snap.gauges[kspec1(fqn(ss, key), tags)], ss, key, tags)
+//@   loop 4 invariant @tags_done tagsCopied(tags, ss) && quiet()
+//@   loop 4 invariant @counters_done forall key string :: key in ss.counters ==> (kspec1(fqn(ss, key), tags) in snap.counters) && cEnt(snap.counters[kspec1(fqn(ss, key), tags)], ss, key, tags)
+//@   loop 4 invariant @gauges_done forall key string :: key in ss.gauges ==> (kspec1(fqn(ss, key), tags) in snap.gauges) && gEnt(snap.gauges[kspec1(fqn(ss, key), tags)], ss, key, tags)
+//@   loop 4 invariant @timers_so_far forall key string :: seen(key) ==> (kspec1(fqn(ss, key), tags) in snap.timers) && tEnt(snap.timers[kspec1(fqn(ss, key), tags)], ss, key, tags)
+//@   loop 5 invariant @tags_done tagsCopied(tags, ss) && quiet()
+//@   loop 5 invariant @counters_done forall key string :: key in ss.counters ==> (kspec1(fqn(ss, key), tags) in snap.counters) && cEnt(snap.counters[kspec1(fqn(ss, key), tags)], ss, key, tags)
+//@   loop 5 invariant @gauges_done forall key string :: key in ss.gauges ==> (kspec1(fqn(ss, key), tags) in snap.gauges) && gEnt(snap.gauges[kspec1(fqn(ss, key), tags)], ss, key, tags)
+//@   loop 5 invariant @timers_done forall key string :: key in ss.timers ==> (kspec1(fqn(ss, key), tags) in snap.timers) && tEnt(snap.timers[kspec1(fqn(ss, key), tags)], ss, key, tags)
+//@   loop 5 invariant @histograms_so_far forall key string :: seen(key) ==> (kspec1(fqn(ss, key), tags) in snap.histograms) && hEnt(snap.histograms[kspec1(fqn(ss, key), tags)], ss, key, tags)
